@@ -273,6 +273,18 @@ func corruptEngine() {
 					return setFL(img, ids)
 				}})
 			}
+			// (d2) freed twice, the two entries apart: a copy of the first id appended at the end
+			if len(free) >= 3 {
+				cs = append(cs, corruption{"double-free-apart", fmt.Sprintf("free id %d listed again at the end of the freelist page", free[0]), func(img []byte) bool {
+					ids := append(append([]uint64{}, free...), free[0])
+					return setFL(img, ids)
+				}})
+				mid := free[len(free)/2]
+				cs = append(cs, corruption{"double-free-apart", fmt.Sprintf("free id %d listed again at the start of the freelist page", mid), func(img []byte) bool {
+					ids := append([]uint64{mid}, free...)
+					return setFL(img, ids)
+				}})
+			}
 		}
 		// (c) referenced twice: a branch element re-pointed to another reachable page of the same kind
 		var branches, leaves []pageRef
@@ -395,6 +407,23 @@ func corruptEngine() {
 				rep.count(c.class + "→checker-crashed")
 			} else {
 				n, first = realCheck(cp, o.Freelist)
+				if n == 0 && strings.HasPrefix(c.class, "double-free") {
+					// what one backend repairs silently while loading the other must still see on the page:
+					// a file is consistent only if Tx.Check is silent under BOTH backends
+					other := bolt.FreelistMapType
+					if o.Freelist == bolt.FreelistMapType {
+						other = bolt.FreelistArrayType
+					}
+					n, first = realCheck(cp, other)
+				} else if n > 0 && strings.HasPrefix(c.class, "double-free") {
+					other := bolt.FreelistMapType
+					if o.Freelist == bolt.FreelistMapType {
+						other = bolt.FreelistArrayType
+					}
+					if n2, _ := realCheck(cp, other); n2 == 0 {
+						n, first = 0, "" // detected with one backend only: a miss
+					}
+				}
 			}
 			ldec, lok := leanDecode(cp)
 			lbad := !lok || leanVerdictBad(ldec)
